@@ -86,6 +86,7 @@ func runC15(c *ShardCtx) {
 				a := plain.Run(in, &o1, nil)
 				b := table.Run(in, &o2, nil)
 				c.Res.Evaluations++
+				c.ConfSample(15013, 2, text, core.Gen{BasicLatin: true}, table, in, o2, nil, b)
 				ref := peg.Run(g, in, nil, core.RefOptions(&o1, plain.Flags))
 				if ref.Matched || cls.Class.IgnoreCase {
 					c.Res.Nontrivial++
